@@ -12,15 +12,15 @@ CLAIMS = {
  'C18': ('NLSF stabiliser for any int16 input, NLSF decode, interpolation, gain dequantisation chains (inductive), pitch lag decoding and table reads decided for every index value a bitstream can carry; LPC stability itself is not claimed', '2/C18'),
  'C13': ('the three sample formats convert to bit-identical internal values for every int16, the three encoder entry points hand identical PCM/depth/downmix to the native encoder, and the three decoder exit points round/saturate one common float output as specified; the codec between them is stubbed', '2/C13'),
  'C20': ('DTX decision logic: generalised counter (inductive invariant, exact characterisation of DTX frames, run bound) and the SILK VAD/DTX machine for any activity inputs; signal-to-activity mapping is not claimed', '2/C20'),
- 'C16': ('leaf parsers of the extension format (skip_extension, skip_extension_payload) are memory-safe and advance exactly as specified on any buffer up to 300 bytes; the iterator and generator above them could not be decided and are not claimed', '2/C16'),
- 'C07': ('one repacketizer cat from any valid state (inductive invariant), out_range from any constructed state re-parsed by the real parser and compared byte for byte, pad/unpad exactness, canonicity and idempotence, all over small frame counts and payloads with every length/range/maxlen symbolic', '2/C07'),
+ 'C16': ('leaf parsers of the extension format (skip_extension, skip_extension_payload) are memory-safe and advance exactly as specified on any buffer up to 300 bytes; one step of the extension iterator from any state satisfying a written representation invariant (inductive: memory safety, reported extension in range and inside the buffer, termination of count/parse/find) for buffers up to 3 (quick) / 5 (thorough) bytes and 3 frames; leaf writers per payload length; carriage through the repacketizer with abstract extension lists; the generator above its leaf writers is not claimed', '2/C16 and 7.2a'),
+ 'C07': ('one repacketizer cat from any valid state (inductive invariant), out_range from any constructed state re-parsed by the real parser and compared byte for byte, pad/unpad exactness, canonicity and idempotence, all over small frame counts and payloads with every length/range/maxlen symbolic, plus out_range with concrete frame lengths on both sides of the 251/252 length-code boundary and 1275', '2/C07'),
  'C11': ('ctl lattice: per request, any int32 value on any (havocked) encoder/decoder state: accepted iff legal, stored and read back, rejection with the documented error leaves every byte unchanged, unknown requests unimplemented, null getters rejected; honouring in the bitstream is not claimed here', '2/C11'),
- 'C02': ('symbol-layer lock-step: real SILK index encoder vs real decoder over a tape coder for every legal index value (per fs/sub-frame/conditional-coding case), and TOC synthesis read back by the inspection helpers; the frame coders and the encode glue are not claimed', '2/C02'),
- 'C10': ('layout validation and channel lookup vs a direct specification, ambisonics channel-count rule, demixing x mixing == gain-scaled identity for the built-in orders (exact integer arithmetic, symbolic cell), saturating 16-bit projection accumulation, and decoder channel routing with stubbed stream decoders; encoder-side layouts/concatenation not claimed', '2/C10'),
+ 'C02': ('symbol-layer lock-step: real SILK index encoder vs real decoder over a tape coder for every legal index value (per fs/sub-frame/conditional-coding case), and TOC synthesis read back by the inspection helpers; the packetisation glue, the per-frame glue (real opus_encode_frame_native with synth SILK/CELT: TOC, redundancy placement, NaN guard) and multistream concatenation with stubbed stream encoders; the SILK/CELT frame coders themselves are not claimed', '2/C02 and 7.2a'),
+ 'C10': ('layout validation and channel lookup vs a direct specification, ambisonics channel-count rule, demixing x mixing == gain-scaled identity for the built-in orders (exact integer arithmetic, symbolic cell), saturating 16-bit projection accumulation, decoder channel routing with stubbed stream decoders, and the encoder-side per-stream budget split and packing (real opus_multistream_encode_native, stream encoder stubbed) incl. the self-delimited size accounting; surround layout tables not claimed', '2/C10 and 7.2a'),
  'C12': ('state bytes after init are independent of previous memory contents and of the object address (whole decoder object; encoder per sub-state), init and reset stay inside the size-query bytes, and OPUS_RESET_STATE from an arbitrary signal history with arbitrary settings leaves every byte equal to a freshly initialised object with those settings (decided per sub-state and composed through pointer-recording stubs); determinism of later encode/decode calls follows only because the codec has no other mutable storage and is not itself executed', '2/C12'),
- 'C19': ('soft clipper: in-range input with cleared memory is bit-for-bit untouched, degenerate arguments touch nothing, and for excursions whose samples all saturate at +-2 (any larger magnitude incl. infinities) the output stays in [-1,1] without sign flips, all for frames of 1-4 samples; general excursions, channel independence and the decoder gain law gave no solver verdict and are not claimed', '2/C19'),
- 'C05': ('packetisation glue of the encoder (opus_encode_native, frame encoder stubbed) from any state satisfying the written invariant: result in [1,max_data_bytes] or a documented error, no store at or behind data[max_data_bytes], CBR budget == round(bitrate x duration / 8) clipped to [1,min(max,1276)] incl. AUTO/MAX, padding to the CBR size for low-budget and repacketised packets, two bytes always suffice; that the real frame coders keep to their budget and constrained-VBR averages are not claimed', '2/C05 and 7.2'),
- 'C15': ('the SSE4.1 LTP codebook search silk_VQ_WMat_EC_sse4_1 (real source over plain-C lane models validated against the host CPU) returns bit-identical results to silk_VQ_WMat_EC_c for every int32 input, per real codebook row; all other dispatched kernels are outside the claim', '2/C15 and 7.2'),
+ 'C19': ('soft clipper: in-range input with cleared memory is bit-for-bit untouched, degenerate arguments touch nothing, and for excursions whose samples all saturate at +-2 (any larger magnitude incl. infinities) the output stays in [-1,1] without sign flips, the memory is the coefficient still in force at the end of the call (cleared after an in-range frame, previous curve continued without leaving [-1,1]), all for frames of 1-4 samples; general excursions, channel independence and the decoder gain law gave no solver verdict and are not claimed', '2/C19'),
+ 'C05': ('packetisation glue of the encoder (opus_encode_native, frame encoder stubbed) from any state satisfying the written invariant: result in [1,max_data_bytes] or a documented error, no store at or behind data[max_data_bytes], CBR budget == round(bitrate x duration / 8) clipped to [1,min(max,1276)] incl. AUTO/MAX, padding to the CBR size for low-budget and repacketised packets, two bytes always suffice; the per-frame glue below it (real opus_encode_frame_native and range encoder, synth SILK/CELT that may overrun: result in [1,budget], no store behind the budget, redundant frame inside the packet, CBR fills the budget) and the multistream per-stream split (exact CBR size, no stream starved, repacketizer never short of room); that the real frame coders keep to their budget and constrained-VBR averages are not claimed', '2/C05 and 7.2a'),
+ 'C15': ('the SSE4.1 LTP codebook search silk_VQ_WMat_EC_sse4_1 (real source over plain-C lane models validated against the host CPU) returns bit-identical results to silk_VQ_WMat_EC_c for every int32 input, per real codebook row, and keeps the same entry on exact ties; all other dispatched kernels are outside the claim', '2/C15 and 7.2'),
  'C09': ('duration and placement contract of loss handling only: a concealment or FEC request of a multiple of 2.5 ms returns exactly that duration, anything else is rejected before decoding; FEC = concealment for the gap placed back to back + exactly one FEC decode of the first frame at frame_size - packet duration; pure concealment when no FEC can be present; last_packet_duration updated; LBRR flag positions; level, decay, FEC accuracy and re-convergence of the audio are not claimed', '2/C09 and 7.2'),
  'C08': ('range coder round trips, accounting invariant (inductive) and termination lemma decided over all parameters within small buffer/sequence bounds', '2/C08'),
 }
